@@ -35,6 +35,16 @@ PROPS = {
         "assumptions": ["state that outlives a file lives in Environment (statics: only the reserved-word LazyLock, immutable)",
                         "the repl is outside the property's quantifier"],
     },
+    "C15": {
+        "module": "c15",
+        "explanation": "Path and provenance rules on Builtins::include and the importers: every typed include passes "
+                       "Importer::import before pushing a value (R53), the importer is fed from a byte-preserving read (R54), "
+                       "unknown type / decoder error end in a build error and `include str` pushes the text unchanged (R55), "
+                       "as_i64 precedes the float fallback in the json/yaml importers and toml Integer -> Int (R56), the "
+                       "importer registry and the two base64 alphabets are enumerated (R87). Not decided: the decoders "
+                       "themselves (serde_json, serde_yaml, toml, base64).",
+        "assumptions": ["serde_json/serde_yaml/toml/base64 decode and encode correctly"],
+    },
 }
 
 
